@@ -79,7 +79,7 @@ def run_one(prop, mut, tier, seed, workers):
                            capture_output=True, text=True)
         viol = [ln for ln in r.stdout.splitlines() if ln.startswith("VIOLATION")]
         detail = [ln for ln in r.stdout.splitlines() if ln.startswith("  bucket=")]
-        return {"id": mut["id"], "exit": r.returncode, "violations": len(viol),
+        return {"id": mut["id"] + ("" if mut.get("check", prop) == prop else " [by %s]" % prop), "exit": r.returncode, "violations": len(viol),
                 "caught": r.returncode == 1 and bool(viol), "wall": round(time.time() - t0, 1),
                 "first": (detail[0][:300] if detail else r.stdout[-300:] + r.stderr[-300:])}
     except Exception as exc:
@@ -114,11 +114,13 @@ def main():
                 with open(meta) as fh:
                     m = json.load(fh)
                 if m.get("property") == prop:
-                    muts.append({"id": "seeded/" + d, "patch": os.path.join("seeded", d, "patch.diff")})
+                    # a change seeded under one property may, by design, be decided by another one's check
+                    muts.append({"id": "seeded/" + d, "patch": os.path.join("seeded", d, "patch.diff"),
+                                 "check": m.get("caught_by", prop)})
     if args.ids:
         muts = [m for m in muts if m["id"] in args.ids]
     with ThreadPoolExecutor(args.jobs) as ex:
-        results = list(ex.map(lambda m: run_one(prop, m, args.tier, args.seed, args.workers), muts))
+        results = list(ex.map(lambda m: run_one(m.get("check", prop), m, args.tier, args.seed, args.workers), muts))
     missed = 0
     for r in results:
         print("%-8s %-40s exit=%s viol=%d %5.1fs  %s" % ("CAUGHT" if r["caught"] else "MISSED", r["id"], r["exit"],
